@@ -204,6 +204,40 @@ func relatedToken(r drv.Rand, at string) (string, string) {
 
 var rrDims = []string{"iss", "sub", "aud", "azp", "exp", "iat", "nonce", "acr", "auth_time", "at_hash"}
 
+// richString: an ordinary opaque value outside [A-Za-z0-9-]: non-ASCII (Latin-1
+// letters, CJK, emoji), 256 bytes, 1 KiB, punctuation, spaces, colons. Every
+// string claim may carry such a value; it must be accepted and handed back unchanged.
+func richString(r drv.Rand, ext string) (string, string) {
+	long := func(n int) string {
+		b := make([]byte, n)
+		for i := range b {
+			b[i] = "abcdefghijklmnopqrstuvwxyz0123456789"[r.IntN(36)]
+		}
+		return string(b)
+	}
+	switch r.IntN(10) {
+	case 0:
+		return "j\u00fcrgen@example.com", "latin1"
+	case 1:
+		return "\u7528\u6237-" + ext, "cjk"
+	case 2:
+		return "user-\U0001F600-" + ext, "emoji"
+	case 3:
+		return long(255), "len255"
+	case 4:
+		return long(256), "len256"
+	case 5:
+		return long(1024), "len1024"
+	case 6:
+		return "user|" + ext + "!#$%&'*+/=?^_`{}~.,;()[]<>", "punct"
+	case 7:
+		return "first last " + ext, "space"
+	case 8:
+		return "tenant:group:" + ext, "colon"
+	}
+	return "\u00e9\u00e8\u00ea-" + long(300), "latin1_long"
+}
+
 // keywords: literal values that sloppy code drops or reinterprets; here they are
 // ordinary opaque strings and must be compared as such.
 var keywords = []string{"null", "NULL", "nil", "undefined", "true", "false", "0", "[]", "{}"}
@@ -515,6 +549,9 @@ func main() {
 			nonceWant = nv
 		default:
 			nv := "n-" + ext
+			if r.Chance(1, 5) {
+				nv, _ = richString(r, ext)
+			}
 			v.Nonce = &nv
 			nonceWant = nv
 		}
@@ -522,6 +559,9 @@ func main() {
 		if r.Chance(1, 3) {
 			if r.Chance(1, 4) {
 				acrs = []string{drv.Pick(r, keywords), "1"}
+			} else if r.Chance(1, 4) {
+				a, _ := richString(r, ext)
+				acrs = []string{a, "urn:mace:incommon:iap:silver"}
 			}
 			l := acrs
 			v.ACR = &l
@@ -567,6 +607,12 @@ func main() {
 		if r.Chance(1, 12) {
 			c.Sub = drv.Pick(r, keywords) // an ordinary, non-empty subject
 		}
+		strForm := "plain"
+		if r.Chance(1, 4) { // subject (mostly) or acr outside the plain alphabet
+			val, how := richString(r, ext)
+			strForm = "sub_" + how
+			c.Sub = val
+		}
 		if r.Chance(1, 3) {
 			c.Azp = client
 		}
@@ -584,6 +630,7 @@ func main() {
 
 		// ---- mutate k claim dimensions
 		var tags []string
+		tags = append(tags, "strform="+strForm)
 		k := drv.Pick(r, []int{0, 0, 0, 0, 0, 0, 0, 1, 1, 1, 1, 1, 1, 1, 1, 2, 2, 2, 2, 3})
 		dims := []string{"iss", "iss", "sub", "aud", "azp", "azp", "exp", "exp", "iat", "iat", "nonce", "acr", "auth_time", "auth_time", "at_hash"}
 		// a configured option makes its claim dimension worth more draws
